@@ -145,7 +145,7 @@ def shape_list(tier):
 def main(tier, seed):
     from framework import Runner, Query
     R = Runner('C01', tier, seed); R.setup()
-    R.blocks = models_str.STD_BLOCKS if tier == 'quick' else None       # quick: names over Latin, CJK, fullwidth and pictograph blocks; thorough: all of Unicode
+    R.blocks = models_str.STD_BLOCKS       # symbolic name chars range over Latin..Latin Ext-B, CJK punctuation + ideographs, fullwidth forms, pictographs (thorough adds an all-Unicode query where noted)
     R.assumptions += ['atom names: 1 symbolic char (thorough: also 2) per name, assumed well-formed per the property (format identifier predicate, no leading atom prefix, no leading/trailing "-", no copula inside)',
                       'numbers are concrete members of the sets in checks/shapes.py (incl. 0, 1, 1e-7, isize::MIN/MAX)',
                       'unordered components are emitted in insertion order (the real HashSet order is arbitrary); both insertion orders of 2-element sets are covered by symmetry of the symbolic names',
@@ -161,5 +161,12 @@ def main(tier, seed):
             use = [(nm, sp) for nm, sp in shapes if not nm.startswith(('sent/', 'task/')) or hash_pick(nm, 2)]
         plist = [dict(fmt=fmt, name=nm, spec=sp) for nm, sp in use]
         R.run_query(Query('roundtrip/' + fmt, 'c01', 'path', plist, '%d value shapes (constructors, nestings, sentences x stamps x truths, tasks x budgets), every well-formed name' % len(use)), confirm, key_of)
+    if tier != 'quick':
+        # every Unicode scalar value as a name char, on the constructor shapes (no code-point restriction)
+        small = [x for x in shapes if x[0].startswith(('atom/', 'bin/Inheritance', 'set/SetExtension', 'vec/Product', 'unary/', 'image/ImageExtension@1', 'sent-atom', 'task-atom'))]
+        for fmt in FORMATS:
+            plist = [dict(fmt=fmt, name=nm, spec=sp, blocks=None) for nm, sp in small]
+            R.run_query(Query('roundtrip-all-unicode/' + fmt, 'c01', 'path', plist, '%d shapes, every Unicode scalar value as name char' % len(small)), confirm, key_of)
+            R.queries[-1]['char_domain'] = 'all Unicode scalar values'
     return R.finish(rule='one state = one path through constructors+formatter+parser+eq for one shape; all well-formed names of the stated length are covered by the path conditions',
                     trusted=['rustc MIR', 'mirsym + std models (validated per path)', 'z3'])
